@@ -344,7 +344,7 @@ fn run_shard(ctx: &ShardCtx) {
     ctx.class_n("enumerated", enumerated);
 
     // G2
-    ctx.run_prop("stream-cli", ctx.tier.pick(1_000_000, 10_000_000), case_strategy(), case_json, |c| match run_case(c) {
+    ctx.run_prop("stream-cli", ctx.tier.pick(3_000_000, 20_000_000), case_strategy(), case_json, |c| match run_case(c) {
         Ok(nt) => {
             if nt {
                 ctx.class("cli:malformed followed by Enter/recall/redraw");
